@@ -799,19 +799,25 @@ func verifC05_big_chunk() {
 		chunk[i] = byte('a' + i%7)
 	}
 	wdone := make(chan error, 1)
+	cont := make(chan struct{})
 	go func() {
 		w, err := c.Writer(vBG, MessageBinary)
 		if err == nil {
 			_, err = w.Write(chunk)
 		}
+		<-cont
 		if err == nil {
 			err = w.Close()
 		}
 		wdone <- err
 	}()
+	// the Ping is sent after the chunk has been written and before the message is closed: nothing orders the two
+	// goroutines but the library's own locks
+	vGhostSettle()
 	ctx, cancel := context.WithTimeout(vBG, time.Second)
 	c.Ping(ctx)
 	cancel()
+	close(cont)
 	vAssert(<-wdone == nil, "C05.big-chunk.writer-ok")
 	vReach("C05.big-chunk.done")
 	frames, ok := vParseWritten(t.out)
